@@ -452,6 +452,25 @@ class Expander:
                 break
             call, (cq, cfn, cmi, self_expr) = hit
             done = False
+            body_ = [x for x in cfn.body if not (isinstance(x, ast.Expr) and isinstance(x.value, ast.Constant))]
+            branching = any(isinstance(x, ast.If) for x in body_)
+            slots_ = self._hoistable_exprs(s)
+            hoistable = any(any(x is call for x in ast.walk(getattr(st, f))) for f, st in slots_) and not self._inside_comprehension(s, call) and len(stack) <= self.max_depth
+            if branching and hoistable and not cq.startswith("<lambda>"):
+                # keep the callee's if/else structure as statements (path analyses see the branches) rather than a conditional expression
+                try:
+                    whole = isinstance(s, ast.Assign) and s.value is call
+                    stm, res = self._inline_statements(call, cq, cfn, cmi, self_expr, mi, cls_qual, qual, stack, assign_to=s.targets if whole else None)
+                    pre += stm
+                    if whole:
+                        s = ast.copy_location(ast.Expr(value=ast.Name(id=res, ctx=ast.Load())), s)
+                    else:
+                        self._replace(s, call, ast.copy_location(ast.Name(id=res, ctx=ast.Load()), call))
+                    self.inlined.append((qual, cq, "stmt"))
+                    changed = done = True
+                    continue
+                except NotInlinable:
+                    pass
             try:
                 binding = self.bind(cfn, call, self_expr, self_expr is not None or self._is_static(cfn))
                 env = {p: v for p, v in binding.items()}
